@@ -56,6 +56,7 @@ def meta_re():
 
 # =================================================================================== PARSE-TOTAL
 def h_parse_total(h: H):
+    h.reg.modconsts["py.int_digit_limit"] = True      # pointer content is arbitrary and unbounded: int() may refuse it
     content = h.bytes("content")
     out, val = h.run(f"{MM}:MetadataManager._parse_hint_content", [content])
     # the decoded, stripped text (ghost): recover it from the theory's decode function for the class predicate
@@ -89,7 +90,8 @@ def unz3(s):
     return re.sub(r"\\\\u\\{{([0-9a-fA-F]+)\\}}", lambda mm: chr(int(mm.group(1), 16)), s) if isinstance(s, str) else s
 cands = [b"", b" ", b"3", b"v3.metadata.json", b"v3-1a2b3c4d.metadata.json\\n", b"\\xff\\xfe", "²".encode(), "٣".encode(), "1²".encode(),
          "①".encode(), b"v3-1a2b3c4d.metadata.json/..", b"../v3.metadata.json", b"v-1.metadata.json", b"007", b"+3", b"3_0", b" 12 \\n",
-         "v٣.metadata.json".encode(), b"v3-1A2B3C4D.metadata.json", b"v3.metadata.json\\n\\n"]
+         "v٣.metadata.json".encode(), b"v3-1A2B3C4D.metadata.json", b"v3.metadata.json\\n\\n",
+         b"9" * 5000, b"v" + b"9" * 5000 + b".metadata.json", b"v" + b"1" * 4301 + b"-1a2b3c4d.metadata.json"]   # beyond int()'s digit limit
 raw = model.get("content")
 if isinstance(raw, str):
     try: cands.append(unz3(raw).encode("latin-1"))
@@ -238,8 +240,9 @@ def h_current_version_info(h: H):
     h.ensure("RESOLVE:nothing-written", len(st.written) == 0 and len(st.deleted) == 0)
 
 
-register(Unit(P, "RESOLVE/_read_version_hint", h_read_version_hint, functions=[f"{MM}:MetadataManager._read_version_hint"]))
-register(Unit(P, "RESOLVE/_current_version_info", h_current_version_info, functions=[f"{MM}:MetadataManager._current_version_info"]))
+from contracts import commitpath as _cp_r  # noqa: E402
+register(Unit(P, "RESOLVE/_read_version_hint", h_read_version_hint, functions=[f"{MM}:MetadataManager._read_version_hint"], replay=_cp_r._replay_mm_commit))
+register(Unit(P, "RESOLVE/_current_version_info", h_current_version_info, functions=[f"{MM}:MetadataManager._current_version_info"], replay=_cp_r._replay_mm_commit))
 
 
 # =================================================================================== RECOVER
@@ -320,6 +323,7 @@ def h_recover(h: H):
 
     def list_files(I, obj, a, k):
         it = orig_list(I, obj, a, k)
+        g["listed"] = True
         mk0 = it.fields["mk"]
 
         def mk(I2):
@@ -344,7 +348,9 @@ def h_recover(h: H):
     if out != "ok":
         return
     listed_w = z3.Select(st.ex, wpath)  # ALL-VISITED: at loop exit every listed file has been an iteration's element
-    h.assume(z3.Implies(listed_w, g["w_seen"]), "rule ALL-VISITED: a completed for-loop has visited every element")
+    if g.get("listed"):
+        # only a loop that RAN over the listing has visited its elements; a return before the listing gets no such fact
+        h.assume(z3.Implies(listed_w, g["w_seen"]), "rule ALL-VISITED: a completed for-loop has visited every element")
     if isinstance(val, SOpt):
         bv, bn = val.val
         h.ensure("RECOVER:None-only-if-no-metadata-file", z3.Implies(val.isnone, z3.Not(listed_w)))
@@ -377,8 +383,9 @@ def h_recover_listing_fails(h: H):
 
 
 def _replay_recover(ob):
-    fallback = ob.get("verdict") in ("undecided", "scenario")
-    return f"FALLBACK = {fallback!r}   # True: bounded stand-in (the known orphan scenario is then not part of the verdict)\n" + '''
+    # the orphan-with-the-highest-version scenario is the listed known finding: it is part of the verdict for that obligation only
+    fallback = ob.get("verdict") in ("undecided", "scenario") or "RECOVER-COMMITTED" not in str(ob.get("name", ""))
+    return f"FALLBACK = {fallback!r}   # True: the known orphan scenario is not part of the verdict\n" + '''
 import sys, os, tempfile, shutil, json, time
 from datashard import create_table, load_table
 from datashard.data_structures import Schema
